@@ -24,7 +24,7 @@ RULE = ("all directed graphs on 1 and 2 input object types with edge kind in {no
 KINDS = {"none": None, "T": lambda t: t, "T!": lambda t: NN(t), "[T]": lambda t: L(t), "[T!]!": lambda t: NN(L(NN(t)))}
 NULLABLE_KINDS = ["none", "T", "[T]"]
 EXTRA_KINDS = {"[[T]]": lambda t: L(L(t)), "[T]!": lambda t: NN(L(t)), "[T!]": lambda t: L(NN(t))}
-FLOOR = {"graphs": 1164, "graphs-with-cycle": 500, "rustc-accepted": 1100, "round-trips": 300, "fragment-patterns": 25, "prescreen-agrees": 1100}
+FLOOR = {"graphs": 1164, "graphs-with-cycle": 500, "rustc-accepted": 1100, "round-trips": 300, "fragment-patterns": 35, "prescreen-agrees": 1100}
 
 
 def graph_schema(names_, edges, one_of):
@@ -202,6 +202,15 @@ def fragment_patterns(rng):
     P.append(("interface-recursion", [f("i", [["spread", "IF"]])], [{"name": "IF", "on": "I", "sel": [["typename"], f("id"), f("i", [["spread", "IF"]])]}]))
     P.append(("two-recursive-spreads", [f("t", [["spread", "F"], ["spread", "G"]])], [{"name": "F", "on": "TT", "sel": [f("id"), f("t", [["spread", "F"]])]}, {"name": "G", "on": "TT", "sel": [f("name"), f("ts", [["spread", "G"]])]}]))
     P.append(("self-spread-under-same-field-twice", [f("t", [["spread", "F"]])], [{"name": "F", "on": "TT", "sel": [f("id"), f("t", [["spread", "F"]]), f("t", [["spread", "F"]], alias="again")]}]))
+    for order in (("Plain", "Tree"), ("Tree", "Plain")):
+        P.append(("two spreads on one union variant (%s first), one recursive through the field" % order[0], [f("t", [["spread", "Tree"]])],
+                  [{"name": "Tree", "on": "TT", "sel": [f("id"), f("u", [["typename"], ["spread", order[0]], ["spread", order[1]], ["inline", "OO", [f("k")]]])]},
+                   {"name": "Plain", "on": "TT", "sel": [f("name")]}]))
+        P.append(("two spreads on one interface variant (%s first), one recursive through the field" % order[0], [f("t", [["spread", "Tree"]])],
+                  [{"name": "Tree", "on": "TT", "sel": [f("id"), f("i", [["typename"], ["spread", order[0]], ["spread", order[1]]])]},
+                   {"name": "Plain", "on": "TT", "sel": [f("name")]}]))
+        P.append(("spread and inline on one variant (%s), recursive spread" % order[0], [f("t", [["spread", "Tree"]])],
+                  [{"name": "Tree", "on": "TT", "sel": [f("id"), f("u", [["typename"]] + ([["inline", "TT", [f("name")]], ["spread", "Tree"]] if order[0] == "Plain" else [["spread", "Tree"], ["inline", "TT", [f("name")]]]))]}]))
     P.append(("plain fragment defined first spreads into a mutual pair", [f("t", [["spread", "Card"]])],
               [{"name": "Card", "on": "TT", "sel": [f("name"), ["spread", "A"]]},
                {"name": "A", "on": "TT", "sel": [f("id"), f("o", [["spread", "B"]])]}, {"name": "B", "on": "OO", "sel": [f("k"), f("t", [["spread", "A"]])]}]))
